@@ -15,7 +15,7 @@ import re
 
 import os
 
-from ..core import hx, unhx, parallel_map, LEAN
+from ..core import hx, unhx, parallel_map, LEAN, BUILD
 from .. import termmodel as T
 
 DRIVERS = ["drv_style"]
@@ -1089,6 +1089,86 @@ def depth_uniformity_oracle(ctx, rep):
             rep.notes.setdefault("depth_unobserved_options", []).append(o)
 
 
+MOVED_DIFF = (b"diff --git a/f.zzz b/f.zzz\n--- a/f.zzz\n+++ b/f.zzz\n@@ -1,2 +1,2 @@ frag\n zeroq\n"
+              b"\x1b[1;35m-movedq\x1b[m\n+plusq\n")
+
+
+def _home_with_gitconfig(name, body):
+    d = os.path.join(BUILD, "home-c12-" + name)
+    os.makedirs(d, exist_ok=True)
+    with open(os.path.join(d, ".gitconfig"), "w") as f:
+        f.write(body)
+    return d
+
+
+def indirect_styles_oracle(ctx, rep):
+    """Style strings that reach the parser indirectly mean the same as when given directly:
+    the replacement of a --map-styles entry, the colours of --blame-palette, and a style option that
+    refers to a custom git-config key; a real reference cycle is still the fatal error."""
+    common = ["--paging=never", "--syntax-theme=none", "--width=60"]
+    for tc in (0, 1):
+        depth = "--true-color=" + ("always" if tc else "never")
+        for c in ("#123456", "rebeccapurple", "201"):
+            st = "%s %s" % (c, c)
+            # 1. --map-styles replacement vs the same string in --zero-style
+            args = ["--no-gitconfig", depth] + common + ["--map-styles=bold purple => " + st, "--zero-style=" + st]
+            rc, out, err = ctx.run_delta(args, MOVED_DIFF)
+            dec = T.decode(out)
+            a, b = _text_cells("movedq")(dec), _text_cells("zeroq")(dec)
+            rep.case(key=("indirect", "map-styles", tc, c), nontrivial=True,
+                     sample=dict(op="indirect", what="map-styles", true_color=tc, colour=c, rc=rc))
+            if rc != 0 or not a or not b or {(x.fg, x.bg) for x in a} != {(x.fg, x.bg) for x in b}:
+                _viol(rep, "depth:map-styles-replacement-differs",
+                      "the replacement style of --map-styles is painted differently from the same string in a style option",
+                      dict(kind="indirect", args=args, stdin="MOVED_DIFF", rc=rc,
+                           replacement=repr(sorted({(x.fg, x.bg) for x in a or []})), direct=repr(sorted({(x.fg, x.bg) for x in b or []}))))
+            # 2. --blame-palette colour vs the same colour as background of --blame-code-style
+            args = ["--no-gitconfig", depth] + common + ["--blame-palette=" + c, "--blame-code-style=normal " + c]
+            rc, out, err = ctx.run_delta(args, BLAME_TXT, env={"DELTA_VERIF_FORCE_GUESS": "git blame src/a.zzz"})
+            dec = T.decode(out)
+            a, b = _text_cells("Alice")(dec), _text_cells("codeq one")(dec)
+            rep.case(key=("indirect", "blame-palette", tc, c), nontrivial=True)
+            if rc != 0 or not a or not b or {x.bg for x in a} != {x.bg for x in b}:
+                _viol(rep, "depth:blame-palette-differs",
+                      "a --blame-palette colour is painted differently from the same colour in a style option",
+                      dict(kind="indirect", args=args, stdin="BLAME_TXT", rc=rc,
+                           palette=repr(sorted({x.bg for x in a or []}, key=repr)), direct=repr(sorted({x.bg for x in b or []}, key=repr))))
+            # 3. a style option referring to a custom git-config key vs the same string given directly
+            home = _home_with_gitconfig("ref%d" % tc, '[delta]\n    foo-style = "%s" "%s"\n    minus-style = foo-style\n' % (c, c))
+            args = [depth] + common + ["--zero-style=" + st]
+            rc, out, err = ctx.run_delta(args, DIFF, env={"HOME": home})
+            dec = T.decode(out)
+            a, b = _text_cells("minusq")(dec), _text_cells("zeroq")(dec)
+            rep.case(key=("indirect", "gitconfig-reference", tc, c), nontrivial=True)
+            replay = dict(kind="indirect", gitconfig='[delta] foo-style = "%s" "%s"; minus-style = foo-style' % (c, c), args=args, stdin="DIFF", rc=rc,
+                          stderr=err.decode("utf-8", "replace")[-200:])
+            if rc != 0 or not a:
+                _viol(rep, "reference:custom-git-config-key-rejected",
+                      "a style option referring to a custom git-config style key is not accepted", replay)
+            elif not b or {(x.fg, x.bg) for x in a} != {(x.fg, x.bg) for x in b}:
+                _viol(rep, "depth:gitconfig-reference-ignores-depth",
+                      "a style reached through a custom git-config key is painted differently from the same string given directly",
+                      dict(replay, referenced=repr(sorted({(x.fg, x.bg) for x in a})), direct=repr(sorted({(x.fg, x.bg) for x in b or []}))))
+    # the same reference given on the command line, a plain named colour
+    home = _home_with_gitconfig("refcli", "[delta]\n    foo-style = bold red\n")
+    rc, out, err = ctx.run_delta(common + ["--minus-style=foo-style"], DIFF, env={"HOME": home})
+    cells = _text_cells("minusq")(T.decode(out))
+    rep.case(key=("indirect", "gitconfig-reference-cli"), nontrivial=True)
+    if rc != 0 or not cells or any(x.fg != ("idx", 1) or "bold" not in x.attrs for x in cells):
+        _viol(rep, "reference:custom-git-config-key-rejected",
+              "--minus-style=foo-style with [delta] foo-style = bold red is not honoured",
+              dict(kind="indirect", gitconfig="[delta] foo-style = bold red", args=common + ["--minus-style=foo-style"], rc=rc,
+                   stderr=err.decode("utf-8", "replace")[-200:]))
+    # a real cycle must still be the fatal error
+    home = _home_with_gitconfig("cycle", "[delta]\n    minus-style = plus-style\n    plus-style = minus-style\n")
+    rc, out, err = ctx.run_delta(common, DIFF, env={"HOME": home})
+    rep.case(key=("indirect", "cycle"), nontrivial=True)
+    if rc != 2 or b"cycle" not in err:
+        _viol(rep, "reference:cycle-not-reported", "a real cycle of style references is not reported as the fatal error",
+              dict(kind="indirect", gitconfig="[delta] minus-style = plus-style; plus-style = minus-style", args=common, rc=rc,
+                   stderr=err.decode("utf-8", "replace")[-200:]))
+
+
 def run(ctx, rep):
     rep.rule = ("style strings: exhaustive <=3 tokens over a 14-word vocabulary (attributes, omit/raw, named, bright, "
                 "number, #rrggbb, normal/auto/syntax), all 256 palette numbers as fg and bg, random #rrggbb, random "
@@ -1108,6 +1188,7 @@ def run(ctx, rep):
     invariance_oracle(ctx, rep, orc)
     binary_oracle(ctx, rep)
     depth_uniformity_oracle(ctx, rep)
+    indirect_styles_oracle(ctx, rep)
     show_config_round_trip(ctx, rep)
 
 
